@@ -159,6 +159,7 @@ def _extra():
     add("kf-16bit-truth-value", "short sa[4]; unsigned char b;", "b = 0; X = 1; if (sa[X]) b = 1;", {"init": {"sa+5": 1}, "expect": {"b": 1}}, "if (sa[X]) with only the high byte set")
     add("kf-out-of-range-constant-compare", "unsigned char a, b;", "b = 0; if (a == 300) b = 1;", {"init": {"a": 44}, "expect": {"b": 0}}, "a == 300 is never true for a char")
     add("kf-stale-carry-after-subtraction", "unsigned char a, b, c, r;", "r = 0; a = b - c; if (a > 0) r = 1;", {"init": {"b": 1, "c": 2}, "expect": {"r": 1, "a": 255}}, "a = b - c; if (a > 0) with a borrow")
+    add("kf-call-in-a-16-bit-shift-evaluated-twice", "short s; unsigned char n; unsigned char f() { n++; return 3; }", "n = 0; s = f() << 2;", {"expect": {"n": 1}, "expect16": {"s": 12}}, "s = f() << 2: f runs once")
     add("kf-nested-call-of-the-same-function", "unsigned char a, b; unsigned char f(unsigned char x, unsigned char y) { return x - y; }", "a = 9; b = 20; a = f(b, f(a, 1));", {"expect": {"a": 12}}, "f(b, f(a, 1)): the inner call overwrites the outer call's first parameter")
     # loops: for / while / do-while agree
     for n in (0, 1, 5, 200):
